@@ -6,6 +6,17 @@ claimed = {
          "Sampling, not enumeration. Trusts the source transform, simos fidelity to package os, and the map model.",
          "deterministic simulation: seeded history/configuration search vs map reference model"),
 }
+claimed.update({
+ "C03": ("fault_enumeration", "Every mutating file operation of a generated history (flush, index GC, primary GC, freelist hand-over, Close, Open, reopen) is a crash point, plus every sampled byte-prefix of each appended write and nested crashes during recovery; each image is booted in a fresh simulated process: open must succeed, every key must read as its last-flushed or a later acknowledged/in-flight state with Get/Has/GetSize agreeing, and the recovered store is driven on through ops, flush, fsck, two GC cycles of each kind and a reopen. Quick samples <=24 images per history, thorough enumerates all crash points of each history.", "4/C03",
+         "Process-crash model only (written data survives); file-operation granularity; histories sampled. Trusts transform, simos fidelity and the admissibility oracle.",
+         "deterministic simulation with crash-point / torn-write fault enumeration vs recovery-admissibility oracle"),
+ "C04": ("exploration", "Seeded histories with index-GC and primary-GC cycles interleaved at arbitrary positions (unflushed data, scan-free on/off, low-use thresholds 0..101, cycles interrupted after n context checks and resumed) with the map model checked on every later call, iteration and reopen; panics are violations.", "4/C04",
+         "Sampling of histories; sequential (concurrent GC is C06). GC cycles that return an error are counted but are not content changes.",
+         "deterministic simulation: seeded GC-interleaved histories vs map reference model"),
+ "C07": ("exploration", "An independent parser of header, index log, bucket table / snapshot, primary and freelist files checks the stated invariant literally at every quiescent checkpoint (after each Flush and Close) of generated histories, in two modes (table rebuilt by log scan; live table or snapshot), and that both modes and the model agree on the contents.", "4/C07",
+         "Formats re-implemented from DESIGN.md Appendix D; quiescent states are sampled, not enumerated.",
+         "deterministic simulation: independent fsck oracle over every quiescent disk image reached"),
+})
 pending = {}
 for i in range(1,18):
     pid = "C%02d" % i
